@@ -278,7 +278,7 @@ var families = []family{
 		off := g.pick([]string{"0", "1", "3", "7"})
 		if !g.plain && g.t.Bool(100) {
 			// a negative offset is not generated: it panics the apply loop of
-			// every replica (recorded finding setrange-negative-offset-panics)
+			// every replica (recorded finding setrange-negative-offset-panics-apply-loop)
 			off = g.pick([]string{"x", "536870912", ""})
 		}
 		return []string{"setrange", g.key(), off, g.val()}
